@@ -120,7 +120,7 @@ theorem sim_release {cfg : Cfg} {d d' : RState} {m : Mon} {o : Obs} (hs : Sim cf
       cases hpk : p.kind with
       | del j f => rw [hpk] at hpred; cases hpred
       | cls j => rw [hpk] at hpred; cases hpred
-      | upl j n f usr => rw [hpk] at hpred; cases hpred
+      | upl j n usr => rw [hpk] at hpred; cases hpred
       | slow sid slot =>
         rw [hpk] at hpred hshape
         have hslot : slot = k := by simpa using hpred
@@ -331,7 +331,7 @@ theorem pendOkW_append_run {P : List Pend} {ns na : Nat} {rel : List Nat} {next 
     | run a b => rw [hqk] at this; rw [this.1] at hqt; cases hqt; exact hs (by simp [slotOf, hqk])
     | del j f => rw [hqk] at this; obtain ⟨n, hn, _⟩ := this; rw [hn] at hqt; cases hqt
     | cls j => rw [hqk] at this; obtain ⟨n, hn, _⟩ := this; rw [hn] at hqt; cases hqt
-    | upl a b c d => rw [hqk] at this; rw [this.1] at hqt; cases hqt
+    | upl a b c => rw [hqk] at this; rw [this.1] at hqt; cases hqt
   refine ⟨?_, ?_, ?_, ?_, ?_, h.relLe⟩
   · rw [List.map_append, List.nodup_append]
     refine ⟨h.tags, by simp, ?_⟩
@@ -383,7 +383,7 @@ theorem sim_abandon {cfg : Cfg} {d d' : RState} {m : Mon} {o : Obs} (hs : Sim cf
     | run j s => rw [hpk] at hshape; rw [hshape.1] at hptag; cases hptag
     | del j f => rw [hpk] at hshape; obtain ⟨⟨n, hn, _⟩, _⟩ := hshape; rw [hn] at hptag; cases hptag
     | cls j => rw [hpk] at hshape; obtain ⟨⟨n, hn, _⟩, _⟩ := hshape; rw [hn] at hptag; cases hptag
-    | upl j n f usr => rw [hpk] at hshape; rw [hshape.1] at hptag; cases hptag
+    | upl j n usr => rw [hpk] at hshape; rw [hshape.1] at hptag; cases hptag
     | slow sid slot =>
       rw [hpk] at hshape
       have hslot : slot = k := by have := hshape.1; rw [hptag] at this; cases this; rfl
